@@ -40,6 +40,8 @@ pub struct Parser {
     pub finals: usize,
     /// for final frame k: was request k a HEAD?
     head_requests: Vec<bool>,
+    /// treat 101 like any other status (direct-API cases, where no protocol switch happens)
+    pub ignore_upgrade: bool,
     /// after a 101 the rest of the stream is opaque
     pub upgraded: bool,
     pub opaque: Vec<u8>,
@@ -110,6 +112,7 @@ impl Parser {
             buf: Vec::new(),
             finals: 0,
             head_requests,
+            ignore_upgrade: false,
             upgraded: false,
             opaque: Vec::new(),
         }
@@ -123,7 +126,7 @@ impl Parser {
         self.buf.extend_from_slice(data);
         let mut out = Vec::new();
         while let Some(f) = self.try_one(false) {
-            let up = f.status == 101;
+            let up = f.status == 101 && !self.ignore_upgrade;
             out.push(f);
             if up {
                 self.upgraded = true;
